@@ -76,10 +76,10 @@ impl<'a, TPrinter: Printer> FileExecutor<'a, TPrinter> {
         let config = self.execution_engine.execution_config();
         self.execution_engine.execute_joined_table(self.running.clone())?;
 
-        for reader in std::mem::take(&mut self.readers).into_iter() {
+        'readers: for reader in std::mem::take(&mut self.readers).into_iter() {
             for line in reader.lines() {
                 if !self.running.load(Ordering::SeqCst) {
-                    break;
+                    break 'readers;
                 }
 
                 let line = line.map_err(|err| ExecutionError::FailReadFile(format!("{}", err)))?;
@@ -96,7 +96,7 @@ impl<'a, TPrinter: Printer> FileExecutor<'a, TPrinter> {
                 }
 
                 if output.reached_limit {
-                    break;
+                    break 'readers;
                 }
             }
         }
@@ -220,10 +220,10 @@ impl<'a> FollowFileExecutor<'a> {
                 }
 
                 self.output_printer.print(&result_row, output.updated);
+            }
 
-                if output.reached_limit {
-                    break;
-                }
+            if output.reached_limit {
+                break;
             }
         }
 
